@@ -190,7 +190,10 @@ func main() {
 		errorsSet(*rounds, enc)
 	case "C20":
 		linksSet(*rounds, enc)
-	case "C18", "C19":
+	case "C18":
+		srpSet(*rounds, enc)
+	case "C19":
+		firstDrawsSet(*rounds, enc) // must come first: the first draws of this process
 		srpSet(*rounds, enc)
 	}
 }
